@@ -5,7 +5,9 @@ package main
 // the statements that clamp the worker count and define the chunk size before the spawn
 // loop, and the statements that compute one worker's range inside it, are printed with the
 // role-carrying identifiers normalised (N worker count, W loop variable, C chunk, S / E
-// start / end of the range, T total) and looked up in a table of known shapes.  An unknown
+// start / end of the range, T total) and looked up in a table of known shapes.  Statements
+// that do not take part in the arithmetic (they neither assign the worker count nor derive
+// a value from the loop variable) are ignored, as are the names of the variables.  An unknown
 // shape makes the translator REFUSE.  Properties/C12.v states that the generated
 // (file, function, shape) list equals the modelled one, where every shape is the model
 // function ([ranges_ceil], [ranges_prop], ...) whose exact-cover theorem is proved for all
@@ -40,7 +42,7 @@ var partShapeTable = map[string]string{
 	// computeAlphas: serial path for one worker, ceil-sized row chunks with break
 	"PRE: N := runtime.GOMAXPROCS(0) ; if N > total { N = total } ; if N < 1 { N = 1 } ; if N == 1 { return computeAlphasSerial(enc, alphas) } ; C := (T + N - 1) / N | LOOP: S := W * C ; E := S + C ; if E > T { E = T } ; if S >= E { break }": "ranges_compute_alphas",
 	// work queues: only the worker count is derived from n
-	"PRE: N := runtime.GOMAXPROCS(0) ; if N > 6 { N = 6 } ; if N > mbH { N = mbH } ; if N < 1 { N = 1 } ; ps := getParallelState(N, mbW, mbH, enc.useDerr) ; workers := ps.workers[:N] | LOOP: ": "workers_encode_parallel",
+	"PRE: N := runtime.GOMAXPROCS(0) ; if N > 6 { N = 6 } ; if N > mbH { N = mbH } ; if N < 1 { N = 1 } | LOOP: ": "workers_encode_parallel",
 	"PRE: N := runtime.GOMAXPROCS(0) ; if N > len(toDecodeIdx) { N = len(toDecodeIdx) } | LOOP: ":                                                                                                "workers_decode_frames",
 	// the goroutine that closes the results channel after wg.Wait()
 	"PRE:  | LOOP: <not in a spawn loop>": "join_closer",
@@ -91,24 +93,91 @@ func genPartShapes() (string, string) {
 						return isHookStmt(st) || strings.Contains(s, "verifhook.") || strings.HasPrefix(s, "var ") ||
 							strings.Contains(s, ".Add(") || strings.Contains(s, "wg.") || strings.Contains(s, "WaitGroup")
 					}
-					var pre []string
-					for _, st := range block.List[:idx] {
-						if skip(st) || !identRe(N).MatchString(uvPrint(st)) {
+					// Only the statements that take part in the partition arithmetic are kept:
+				// before the loop, assignments to the worker count N (also inside an if), the
+				// definition of a chunk size from N, and an `if <N ...> { return ... }` that
+				// switches to a serial path; inside the loop, assignments / ifs that mention
+				// the loop variable or a value derived from it.  Everything else (logging,
+				// unrelated set-up, uses of N that do not change it) is a no-op for the shape.
+				assigns := func(st ast.Stmt, name string) bool {
+					found := false
+					ast.Inspect(st, func(x ast.Node) bool {
+						switch v := x.(type) {
+						case *ast.AssignStmt:
+							for _, l := range v.Lhs {
+								if id, ok := l.(*ast.Ident); ok && id.Name == name {
+									found = true
+								}
+							}
+						case *ast.IncDecStmt:
+							if id, ok := v.X.(*ast.Ident); ok && id.Name == name {
+								found = true
+							}
+						}
+						return !found
+					})
+					return found
+				}
+				chunkDef := regexp.MustCompile(`^(\w+) := .*/ ` + regexp.QuoteMeta(N) + `$`)
+				var pre []string
+				for _, st := range block.List[:idx] {
+					txt := uvPrint(st)
+					if skip(st) || !identRe(N).MatchString(txt) {
+						continue
+					}
+					keep := assigns(st, N) || chunkDef.MatchString(txt)
+					if is, ok := st.(*ast.IfStmt); ok && identRe(N).MatchString(uvPrint(is.Cond)) && strings.Contains(txt, "return") {
+						keep = true
+					}
+					if keep {
+						pre = append(pre, txt)
+					}
+				}
+				var in []string
+				derived := []string{W}
+				for _, s := range pre {
+					if m := chunkDef.FindStringSubmatch(s); m != nil {
+						derived = append(derived, m[1])
+					}
+				}
+				mentions := func(txt string) bool {
+					for _, d := range derived {
+						if identRe(d).MatchString(txt) {
+							return true
+						}
+					}
+					return false
+				}
+				for _, st := range loop.Body.List {
+					if st == ast.Stmt(g) {
+						break
+					}
+					if skip(st) {
+						continue
+					}
+					txt := uvPrint(st)
+					switch v := st.(type) {
+					case *ast.AssignStmt:
+						if !mentions(txt) {
 							continue
 						}
-						pre = append(pre, uvPrint(st))
-					}
-					var in []string
-					for _, st := range loop.Body.List {
-						if st == ast.Stmt(g) {
-							break
+						if v.Tok == token.DEFINE {
+							for _, l := range v.Lhs {
+								if id, ok := l.(*ast.Ident); ok {
+									derived = append(derived, id.Name)
+								}
+							}
 						}
-						if skip(st) {
+					case *ast.IfStmt:
+						if !mentions(txt) {
 							continue
 						}
-						in = append(in, uvPrint(st))
+					default:
+						continue
 					}
-					// roles
+					in = append(in, txt)
+				}
+				// roles
 					C, S, E, T := "", "", "", ""
 					for _, s := range pre {
 						if m := regexp.MustCompile(`^(\w+) := .*/ ` + regexp.QuoteMeta(N) + `$`).FindStringSubmatch(s); m != nil {
